@@ -269,14 +269,7 @@ func (c *Ctx) closureRangesOverOwnRequest(cl *ssa.Function, typ, key string) {
 		}
 		return false
 	}
-	var l *ir.Loop
-	for _, cand := range ir.Loops(cl) {
-		subject = nil
-		if rangesOverCallResult(cand, isTopics, 0) {
-			l = cand
-			break
-		}
-	}
+	_, l, _ := c.loopOverVia(cl, isTopics)
 	if l == nil || subject == nil {
 		return // reported by the loop-contract rule
 	}
